@@ -580,7 +580,7 @@ theorem xl_pointInPolygonal (pt : PX) (pg : PolygonalX) (hpt : finPt pt = true) 
     GenXL.pointInPolygonal osX rayX pt pg = GenL.pointInPolygonal osR rayR (vP pt) (vG pg) := by
   unfold GenXL.pointInPolygonal GenL.pointInPolygonal Go.forRange
   dsimp only
-  rw [vG_polygons]
+  rw [x_Polygons, tieL_Polygons, vG_polygons]
   refine bind_congr_left (Go.forRangeAux_map vQ _ _ pg.polygons 0 _ ?_) (fun c => by cases c <;> rfl)
   intro inn k poly hk
   have hq : ∀ r ∈ poly, ∀ v ∈ r, finPt v = true := hg poly (List.mem_of_getElem? hk)
